@@ -843,6 +843,13 @@ class Frame:
         tg = st.target
         if isinstance(tg, ast.Name):
             cur = self.load_name(tg.id)
+            if type(cur).__name__ == "SymList" and isinstance(st.op, ast.Add):
+                rhs = self.eval(st.value)           # lst += [a, b, ...]  extends the list in place
+                if not isinstance(rhs, (list, tuple)):
+                    raise Unsupported("extension of a list of symbolic length by a non-literal sequence")
+                for x in rhs:
+                    cur.append(self.eng, x)
+                return
             rhs = self.eval(st.value)
             if isinstance(cur, Arr):
                 newv = npmodel.binop(self.eng, st.op, cur, rhs)
